@@ -488,17 +488,94 @@ class SymCtx:
         if r == z3.unknown:
             self.prefer_fresh = True
             # the incremental core is weak on non-linear arithmetic:
-            # retry from scratch (non-incremental => nlsat)
+            # retry from scratch (non-incremental => nlsat), on the cone
+            # of influence of the query only (unrelated constraints --
+            # in particular integer choice variables, which would turn a
+            # pure real problem into mixed integer/real non-linear
+            # arithmetic -- are left out; they are satisfiable on their
+            # own because the path is feasible)
             self.stats.fresh_retries = getattr(
                 self.stats, 'fresh_retries', 0) + 1
+            allc = list(self.solver.assertions())
+            if extra:
+                core_, rest = self._slice(allc, extra)
+            else:
+                core_, rest = allc, []
             f = z3.Solver()
             f.set('timeout', self.query_timeout_ms)
-            f.add(self.solver.assertions())
+            f.add(core_)
             f.add(*extra)
             r = f.check()
             self._msolver = f
+            if r == z3.sat and rest:
+                # complete the model: fix the slice's variables and
+                # solve the (independent) rest
+                m = f.model()
+                g = z3.Solver()
+                g.set('timeout', self.query_timeout_ms)
+                g.add(allc)
+                g.add(*extra)
+                for d in m.decls():
+                    if d.arity() == 0:
+                        g.add(d() == m[d])
+                r2 = g.check()
+                if r2 == z3.sat:
+                    self._msolver = g
+                elif r2 == z3.unknown:
+                    r = z3.unknown
+                else:
+                    # cannot happen for an independent rest; be safe
+                    r = z3.unknown
         self.stats.solver_s += time.time() - t
         return r
+
+    _VARS = {}
+
+    @classmethod
+    def _vars(cls, e):
+        k = e.get_id()
+        hit = cls._VARS.get(k)
+        if hit is not None and hit[0].eq(e):
+            return hit[1]
+        out = set()
+        seen = set()
+        stack = [e]
+        while stack:
+            t = stack.pop()
+            i = t.get_id()
+            if i in seen:
+                continue
+            seen.add(i)
+            if z3.is_app(t):
+                d = t.decl()
+                if d.kind() == z3.Z3_OP_UNINTERPRETED:
+                    out.add(d.name())
+                stack.extend(t.children())
+        if len(cls._VARS) > 200000:
+            cls._VARS.clear()
+        cls._VARS[k] = (e, out)
+        return out
+
+    def _slice(self, assertions, extra):
+        want = set()
+        for x in extra:
+            want |= self._vars(x)
+        if not want:
+            return assertions, []
+        av = [(a, self._vars(a)) for a in assertions]
+        chosen = [False] * len(av)
+        changed = True
+        while changed:
+            changed = False
+            for i, (a, vs) in enumerate(av):
+                if not chosen[i] and (vs & want):
+                    chosen[i] = True
+                    if not vs <= want:
+                        want |= vs
+                        changed = True
+        core_ = [a for (a, _), c in zip(av, chosen) if c]
+        rest = [a for (a, vs), c in zip(av, chosen) if not c and vs]
+        return core_, rest
 
     def _model(self):
         return self._msolver.model()
@@ -846,6 +923,14 @@ class SymCtx:
         self.unknown_labels.append(label)
         return None
 
+    def lemma(self, cond, label):
+        """proof obligation that, once discharged, is added to the path
+        as a fact (helps the solver on later non-linear queries)"""
+        r = self.check(cond, label)
+        if r is True and not isinstance(cond, bool):
+            self._add(bexpr(cond))
+        return r
+
     def exception(self, exc, label=None):
         """an exception of repository code the harness does not allow"""
         self.stats.exceptions += 1
@@ -993,6 +1078,9 @@ class ConcreteCtx:
         ok = bool(cond)
         (self.passed if ok else self.failed).append(label)
         return ok
+
+    def lemma(self, cond, label):
+        return self.check(cond, label)
 
     def exception(self, exc, label=None):
         self.exceptions.append(
